@@ -1,8 +1,9 @@
 """C18 - every reported inverse model is a genuine, admissible mole-balance model.
 
 Generator (vp/c18gen.py): forward-simulated evolutions - 1-3 initial waters are mixed and reacted with known amounts of phases
-(REACTION / EQUILIBRIUM_PHASES, ion-exchange pairs, evaporation or dilution, user PHASES with fractional formulas, a minority of
-pyrite-oxidation / organic-matter redox problems); the saved final water is then inverted with the true phases plus decoys, so that
+(REACTION / EQUILIBRIUM_PHASES, ion-exchange pairs, evaporation or dilution, user PHASES with fractional formulas; redox problems:
+pyrite oxidation, sulfate reduction, denitrification with loss of N2(g), O2(g) ingassing, H2(g); reciprocal salt pairs that give
+several equally good models, -phases order permuted); the saved final water is then inverted with the true phases plus decoys, so that
 at least one exact model exists unless a perturbation, a contradicting constraint or a missing phase removes it on purpose.
 
 Oracle, for every model row of the selected-output string (-high_precision, 13 digits) and its printed tables:
@@ -11,9 +12,12 @@ Oracle, for every model row of the selected-output string (-high_precision, 13 d
       valence states summed; water (H, O) balanced with the formula weight of H2O of the database text (models without redox transfers)
   (b) printed Input = the analyses, |Delta| <= declared uncertainty (per row, -balances > element > -uncertainty, pH separately),
       Input + Delta rows balance element by element (and alkalinity, with the phase alkalinity computed from the text) at print precision;
-      MaxFracErr (13 digits) <= largest allowed relative adjustment
+      MaxFracErr (13 digits) <= largest allowed relative adjustment; every valence-state row with a redox transfer of its own (O(0),
+      H(0), N(0), N(3), N(-3), S(-2), C(-4), Fe(3)): sum +-alpha (Input+Delta) + sum x_p atoms_p,row = reported redox mole transfer,
+      atoms from the phase reaction as written (N2(g), O2(g), H2(g): 2 atoms per mole)
   (c) mixing fractions >= 0, final fraction 1, dissolve-only x >= 0, precipitate-only x <= 0
-  (d) -range: min <= value <= max, asserted in the robust form forced by F3 (below)
+  (d) -range: min <= value <= max, asserted in the robust form forced by F3 (below); per interval for ABSENT members: a phase / initial
+      solution with value 0 (|value| <= 1e-9) that is not forced must have a reported interval containing 0 (the engine reports 0, 0)
   (e) -minimal: no reported model's set of phases and solutions strictly contains another one's
 Slack: 1e-9 relative + 10..20 * tolerance per constraint row (cl1 accepts residuals up to 10 * tol by construction) + print precision.
 
@@ -25,7 +29,7 @@ FINDINGS in the L1 solver cl1 and its callers (strict replays: replays/C18/fixed
              range can be too narrow, miss the model's own value, or be inverted; no notice
   F5  known  cl1() accepts points that violate its own equality / bound rows (residuals are read from the tableau, pivots as small as
              the tolerance): reported adjustments that do not balance, typically on the razor edge of feasibility; the water row
-             (55 mol/kg) shows residuals up to ~5e-6 relative
+             (55 mol/kg) shows residuals up to ~4e-5 relative
   F6  new    solve_inverse() / minimal_solve() take an LP that cl1 REJECTED for round-off ("CL1: Roundoff errors in optimization", more
              frequent since the F4 fix) for an infeasible one and save_bad() it; subset_bad() then declares every subset infeasible:
              a model is declared minimal although a reported model is a proper subset of it
@@ -36,7 +40,7 @@ What is still excluded, per model and per clause, each counted in the evidence:
   * F5: violations of the balance / adjustment clauses (element_balance, printed_balance, delta_limit, max_frac_err, water_balance) and
     range_majority are reported only if reproduced by two reformulations of the same problem (reversed phase order; all amounts x 1.7 +
     rotated order) and two neighbouring problems (relative uncertainties 1.3 % wider / narrower) (`not_reproduced_*`); a water-row residual
-    below 2e-5 relative is counted (`known_F5:*`);
+    below 2e-4 relative is counted (`known_F5:*`);
   * F6: a model printed after a round-off notice of a non-range LP (anywhere earlier in the run: the rejected mask stays in the list of
     "infeasible" sets and poisons its subsets) is not used as the CONTAINING model of clause (e) (`known_F6:*`);
   * the sign clauses (c), fraction_final and (e) otherwise are immediate (no reproduction filter); sign slack = 10 * tolerance, what the
@@ -52,8 +56,9 @@ from ..core import Violation, Discard
 ID = "C18"
 LEVEL = "exploration"
 RULE = ("Hypothesis-generated forward simulations (1-3 initial waters, mixing fractions, 1-5 known phase transfers through REACTION / "
-        "EQUILIBRIUM_PHASES, ion-exchange pairs, evaporation/dilution, user PHASES with fractional formulas; 10 % pyrite-oxidation / "
-        "organic-matter redox problems) whose saved final water is inverted with the true phases + 0-8 decoys (linearly independent "
+        "EQUILIBRIUM_PHASES, ion-exchange pairs, evaporation/dilution, user PHASES with fractional formulas; 17 % redox problems (pyrite "
+        "oxidation, sulfate reduction, denitrification with N2(g) loss, O2(g) ingassing, H2(g)); 8 % reciprocal salt pairs with several "
+        "equally good models) whose saved final water is inverted with the true phases + 0-8 decoys (linearly independent "
         "stoichiometries), dissolve/precipitate constraints (consistent or contradicting), global / per-solution / per-element / absolute / "
         "zero uncertainties, -balances incl. pH and Alkalinity, -range, -minimal, -tolerance, -mineral_water, -uncertainty_water, force; "
         "analyses perturbed inside / outside their uncertainty. Every reported model is re-verified from the selected-output string "
@@ -327,6 +332,9 @@ class Chem(object):
             return self._alk[key]
         if name in ("H2O", "H+", "e-"):
             return {}
+        for em in self.db.exchange_master.values():
+            if F.canonical(em.species) == name:
+                return {em.element: 1.0}          # X- : the exchanger row
         ms = [m for m in (self.db.master_of_species.get(name) or []) if m.element != "Alkalinity"]
         if ms:
             sec = [m for m in ms if not m.primary]
@@ -569,9 +577,9 @@ def verify(case, comps, numbers, heads, rows, printed, summary, toler, chem, ctx
         resid = math.fsum(wt)
         slack = 1e-9 * math.fsum(abs(t) for t in wt) + 2 * tol10 + abs(inv["u_water"] or 0.0) * (1 + 1e-9)
         no_redox = printed is not None and not printed[mi]["redox"]      # redox transfers carry water of their own, not reported
-        if no_redox and abs(resid) > slack and not strict and abs(resid) <= slack + 2e-5 * math.fsum(abs(t) for t in wt):
+        if no_redox and abs(resid) > slack and not strict and abs(resid) <= slack + 2e-4 * math.fsum(abs(t) for t in wt):
             # known finding F5: the water row (55 mol per kg) is where the solver's unverified equality residuals are largest
-            ctx.event("known_F5:water_row_residual_below_2e-5_relative")
+            ctx.event("known_F5:water_row_residual_below_2e-4_relative")
         elif no_redox and abs(resid) > slack:
             fail("water_balance", "%s: water balance (mol): terms %r: residual %.6e exceeds uncertainty_water + slack = %.3e" % (
                 tag, wt, resid, slack))
